@@ -61,7 +61,7 @@ var properties = map[string]Property{
 	},
 	"C02": {
 		Level:       "other",
-		Rules:       []string{"P-RECOVER", "P-PANICTYPE", "P-ERRCHECK", "P-MEMO", "P-SCT", "ST-UNIFORM", "ST-BALANCE", "ST-TYPES", "ST-FRAMES", "TV-WF", "TV-CATCHALL", "TV-ENGINE", "R-LOCK", "R-RESET", "G-IMPORTS"},
+		Rules:       []string{"P-RECOVER", "P-PANICTYPE", "P-ERRCHECK", "P-MEMO", "P-SCT", "ST-UNIFORM", "ST-BALANCE", "ST-TYPES", "ST-FRAMES", "TV-WF", "TV-CATCHALL", "TV-ENGINE", "R-LOCK", "R-RESET", "N-WALK", "G-IMPORTS"},
 		Explanation: "Decided (large structural part): (i) Parse registers, directly after taking the lock, a deferred closure that calls recover() unconditionally, stores a recovered error into the named error result and writes no other result; every explicit panic in parser code carries one of the four documented types; conversion errors (strconv, regexp, json) panic with a documented type or are propagated; (ii) the value stack is typed by abstract interpretation of the grammar that the generated matcher actually runs (reconstructed by the decompiler, so the result does not depend on the published grammar): every action has one stack effect on all non-panicking paths (implicit defaults of exhaustive type switches are discharged from the producer types of the switched slot), every rule has one net effect, no derivation pops an empty stack or fails an unchecked assertion, frame save/load are paired and never index an empty list, and the start rule leaves the stack empty; the stack is empty at the start of every Parse (R-RESET); (iii) the grammar is well-formed (no left recursion / nullable repetition), the start rule is total, the parser is initialised without options (memoisation on), and hand-written recursion descends on the tree. Not decided: bounded time quantitatively, out-of-memory / stack depth for pathological nesting, bounds checks inside the generated matcher (rely on the end-symbol sentinel appended by reset: compared as boilerplate), the few index expressions in hand-written helpers (varBlockSet[1], literal[0], text[0:1]) which are listed as assumed.",
 		Assumptions: []string{"assumed obligations: varBlockSet[1] in the regexp callback (the pattern has one group), literal[0] (literals are built as one-element slices), text[0:1] in the negation action (the capture is never empty)"},
 	},
